@@ -248,12 +248,12 @@ func record(caseJSON []byte, o *Outcome) {
 	for _, e := range o.Excluded {
 		stats.Excluded[e]++
 	}
+	for _, c := range o.Classes {
+		stats.Classes[c]++
+	}
 	if o.Discard {
 		stats.Discarded++
 		return
-	}
-	for _, c := range o.Classes {
-		stats.Classes[c]++
 	}
 	if o.NonTrivial {
 		stats.NonTrivial++
